@@ -55,6 +55,9 @@ Delegating == { i \in 1..Len(B) : HasYF(B[i]) }
 \* templates Len(B)+i is the in-place form of template i
 BWithInline == [i \in 1..(2 * Len(B)) |-> IF i <= Len(B) THEN B[i] ELSE InlineSeq(B[i - Len(B)])]
 LockTops == { <<i, i + Len(B)>> : i \in Delegating }
+\* the design check: every template alone (instance 2 is an idle "plain"), and the lock-step pairs
+DesignTops == LockTops \cup { <<i, 1>> : i \in 1..Len(B) }
+NoTops == {}
 
 \* the header record the harness renders the generator definitions from
 ASSUME PrintT(ToJson([rec |-> "bodies", names |-> BNames, bodies |-> B, nb |-> NB]))
